@@ -5,7 +5,7 @@
 From Coq Require Import List ZArith NArith Bool String.
 From Coq.Strings Require Import Byte.
 From L4 Require Import Hex.
-From L4.model Require Import GoBase Router.
+From L4.model Require Import GoBase Router RouterSpec.
 Import ListNotations.
 Open Scope Z_scope.
 
@@ -49,14 +49,15 @@ Fixpoint evs_eqb (a b : list ev) : bool :=
   | _, _ => false
   end.
 
-(* ESkip is a ghost event of the model (a cached verdict was used); the implementation cannot show it *)
-Definition visible (e : ev) : bool := match e with ESkip _ _ _ => false | _ => true end.
+(* ESkip and ENext are ghost events of the model (a cached verdict was used; a handler chain handed the
+   connection on); the implementation cannot show them *)
+Definition visible (e : ev) : bool := match e with ESkip _ _ _ | ENext _ _ _ => false | _ => true end.
 
 (* what can be seen of a run through the REAL subroute module from outside it: fallbacks and drops of
    nested route lists are internal to the module (its own logger, its own next) *)
 Definition visible_outside (e : ev) : bool :=
   match e with
-  | ESkip _ _ _ => false
+  | ESkip _ _ _ | ENext _ _ _ => false
   | EFallback (S _) _ => false
   | EDrop (S _) _ => false
   | _ => true
@@ -69,13 +70,14 @@ Inductive c02case :=
    of a sequence: the model is the same for the first and for every later one) *)
 | RS (rs : list route) (script : list arrival) (obs : list ev) (returned_error : bool).
 
-(* fuel: passes are bounded by buffer growth; the engine's scripts need far less *)
-Definition corr_fuel : nat := 64.
+(* fuel: [need_rs rs] — with it the model provably never returns Exhausted on the engine's scripts
+   (proofs/RouterTotal.v: s_serve_total; the scripts have no empty chunk) *)
+Definition corr_fuel (rs : list route) : nat := need_rs rs.
 
 Definition check (c : c02case) : bool :=
   match c with
   | RC rs script obs closed panicked =>
-      let r := s_serve corr_fuel rs [] script in
+      let r := s_serve (corr_fuel rs) rs [] script in
       evs_eqb (filter visible (evs (res_st r))) obs
       && (closed =? 1)     (* Server.handle closes the connection exactly once whatever the outcome *)
       && match r with
@@ -84,7 +86,7 @@ Definition check (c : c02case) : bool :=
          | _ => negb panicked
          end
   | RS rs script obs reterr =>
-      let r := s_serve corr_fuel rs [] script in
+      let r := s_serve (corr_fuel rs) rs [] script in
       evs_eqb (filter visible_outside (evs (res_st r))) obs
       && Bool.eqb (existsb is_herr (evs (res_st r))) reterr
       && match r with Crash _ | Exhausted _ => false | _ => true end
